@@ -34,6 +34,7 @@ class Rec:
         self.states: set[str] = set()
         self.transitions = 0
         self.outcomes: set[str] = set()
+        self.extra = None
 
     # -- explored cases ------------------------------------------------------
     def case(self, nontrivial_key=None, observation=None, outcome=None):
@@ -95,6 +96,7 @@ class Rec:
             states=sorted(self.states),
             transitions=self.transitions,
             outcomes=sorted(self.outcomes),
+            extra=self.extra,
         )
 
 
